@@ -426,7 +426,8 @@ def run_conc(devs, budgets, request="en25", enabled_before=True, op="set"):
         if op == "clear":
             hx.apply("set25")
         if hx.viol:
-            box["harness"] = f"set-up reported {hx.viol[0][0]}"
+            # what the sequential oracle sees during the set-up is a violation (the history part reports it too), not an error of the harness
+            box["setup_viol"] = list(hx.viol)
             return
         ep, h = hx.ep, hx.h
         enable, alid = EVENTS[request][1]
@@ -460,6 +461,13 @@ def run_conc(devs, budgets, request="en25", enabled_before=True, op="set"):
     sched = vrt.run(driver, devs, budgets, max_steps=500000, max_time=1e6, line_points=True)
     res = {"trace": sched.trace, "v": []}
     case = {"part": "conc", "request": request, "enabled_before": enabled_before, "op": op}
+    if box.get("setup_viol") and not (sched.harness_failure or sched.driver_exception):
+        for sig, d in box["setup_viol"]:
+            d = dict(d)
+            d["case"] = case
+            res["v"].append((sig, d))
+        res["obs"] = "violation-in-set-up"
+        return res
     if sched.harness_failure or sched.driver_exception or box.get("harness"):
         res["harness"] = (sched.harness_failure or sched.driver_exception or box.get("harness"))[-1200:]
         res["obs"] = None
